@@ -57,7 +57,7 @@ func c08() []*Ob {
 					}
 				}
 			}},
-		{Prop: "C08", ID: "C08.2", Engine: "ORDER+ACK", Floor: 12,
+		{Prop: "C08", ID: "C08.2", Engine: "ORDER+ACK", Floor: 10,
 			Desc: "publish order: syncRename syncs before it renames; Seal returns success only after writeSealedFraction, syncRename(index) and the directory sync; writeSortedDocs only after writeDocsInOrder (ending in Flush) and syncRename(sdocs); the registry block is written after every section and every section's success dominates the success return",
 			Check: func(c *Ctx) {
 				if fn := c.Fn("frac.syncRename"); fn != nil {
@@ -147,7 +147,7 @@ func c08() []*Ob {
 					AckCheck(c, fn, []Must{{Name: "Seek", M: Callee("(io.Seeker).Seek")}, {Name: "Write", M: Callee("(io.Writer).Write")}}, nil)
 				}
 			}},
-		{Prop: "C08", ID: "C08.3", Engine: "DOM+ORDER", Floor: 3,
+		{Prop: "C08", ID: "C08.3", Engine: "DOM+ORDER", Floor: 2,
 			Desc: "proxyFrac.Seal releases the active fraction only after frac.Seal returned nil and after the sealed fraction was stored; FracManager.seal reaches a fatal sink on every other sealing error",
 			Check: func(c *Ctx) {
 				if fn := c.Fn("(*fracmanager.proxyFrac).Seal"); fn != nil {
@@ -186,7 +186,7 @@ func c08() []*Ob {
 					}
 				}
 			}},
-		{Prop: "C08", ID: "C08.5", Engine: "FILESTATE", Floor: 20,
+		{Prop: "C08", ID: "C08.5", Engine: "FILESTATE", Floor: 10,
 			Desc:  "every crash prefix of the seal and release file operations, for all four (SkipSortDocs, KeepMetaFile) settings, is classified ACTIVE or SEALED by the loader with the files that outcome needs; temp suffixes are ignored",
 			Check: func(c *Ctx) { fileStateObligations(c, "C08") }},
 		{Prop: "C08", ID: "C08.4", Engine: "OWN", Floor: 6,
